@@ -22,14 +22,15 @@ EXPLANATION = 'exhaustive enumeration of configurations x credit sequences x pla
 ASSUMPTIONS = ['credit counted when the frame is fed to the endpoint (upper bound of what it can have processed)']
 BUDGET_S = {'quick': 300, 'thorough': 3000}
 
-SOURCES = ('gen', 'agen', 'rx4', 'rx4bp', 'rx3', 'rx3bp')
+SOURCES = ('gen', 'agen', 'rx4', 'rx4bp', 'rx3', 'rx3bp', 'gen-delay', 'agen-delay')
+DELAY_OFFSETS = (('t', 0), ('t', 5), ('t', 10), ('t', 15), ('t', 30))  # virtual milliseconds after the previous credit frame
 OFFSETS = {'quick': (0, 1, 2, 3, 4, 6, 9, 13, 'Q'), 'thorough': tuple(range(0, 16)) + (20, 30, 'Q')}
 
 
 def bounds(tier):
     return {'sources': list(SOURCES), 'roles': ['stream-responder', 'channel-responder', 'channel-requester'],
             'counts': [0, 1, 2, 3, 5], 'initial_n': [1, 2, MAXN], 'request_n_values': [1, 2, MAXN],
-            'request_n_sequence_length': 2 if tier == 'quick' else 3, 'offsets': [str(o) for o in OFFSETS[tier]]}
+            'request_n_sequence_length': 2 if tier == 'quick' else 3, 'offsets': [str(o) for o in OFFSETS[tier]], 'delay_sources': 'delay_between_messages=10ms, credit placed at virtual time offsets 0/5/10/15/30 ms'}
 
 
 def elements(k):
@@ -38,22 +39,24 @@ def elements(k):
 
 def make_source(kind, k):
     els = elements(k)
-    if kind == 'gen':
+    from datetime import timedelta
+    delay = timedelta(milliseconds=10) if kind.endswith('-delay') else timedelta(0)
+    if kind in ('gen', 'gen-delay'):
         from rsocket.streams.stream_from_generator import StreamFromGenerator
 
         def gen():
             for i, e in enumerate(els):
                 yield e, i == k - 1
 
-        return StreamFromGenerator(gen)
-    if kind == 'agen':
+        return StreamFromGenerator(gen, delay_between_messages=delay)
+    if kind in ('agen', 'agen-delay'):
         from rsocket.streams.stream_from_async_generator import StreamFromAsyncGenerator
 
         async def agen():
             for i, e in enumerate(els):
                 yield e, i == k - 1
 
-        return StreamFromAsyncGenerator(agen)
+        return StreamFromAsyncGenerator(agen, delay_between_messages=delay)
     if kind in ('rx4', 'rx4bp'):
         import reactivex
         from rsocket.reactivex.back_pressure_publisher import observable_to_publisher, from_observable_with_backpressure, observable_from_queue
@@ -106,6 +109,12 @@ def run_case(role, flavour, src, k, n0, rns, placement, part=None):
         for rn, off in zip(rns, placement):
             if off == 'Q':
                 s.w.run_q()
+            elif isinstance(off, tuple):
+                s.w.run_q()
+                if off[1]:
+                    busy = loop.next_timer() is not None and loop.next_timer() <= loop.time() + off[1] / 1000.0 + 1e-9
+                    s.advance(off[1] / 1000.0)
+                    nontriv = nontriv or busy
             else:
                 for _ in range(off):
                     if loop.has_ready():
@@ -117,6 +126,8 @@ def run_case(role, flavour, src, k, n0, rns, placement, part=None):
                 part.state((role, src, k, n0, sent_now, rn))
             s.peer(R.enc_request_n(sid, rn), mode='0')
         s.settle('Q')
+        if src.endswith('-delay'):
+            s.advance(0.2)
         v = list(monitors.credit(s.log, ep))
         total = sum(rns) + (n0 if role != 'channel-requester' else 0)
         frames = [f for f in s.sent_on(sid) if f.type == R.PAYLOAD]
@@ -198,8 +209,8 @@ def run_unit(unit, part):
                     transmission_case(flavour, kind, n, part)
         return
     L = 2 if tier == 'quick' else 3
-    offs = OFFSETS[tier]
     role, src, k, flavour = unit['role'], unit['src'], unit['k'], unit['flavour']
+    offs = DELAY_OFFSETS if src.endswith('-delay') else OFFSETS[tier]
     for n0 in (1, 2, MAXN):
         for ln in range(0, L + 1):
             for rns in itertools.product((1, 2, MAXN), repeat=ln):
@@ -217,7 +228,7 @@ def run_unit(unit, part):
                         part.nontriv((role, src, k, n0, rns, placement))
                     for rule, sig, detail in v:
                         part.violate(rule, sig, detail, {'kind': 'credit', 'role': role, 'src': src, 'k': k, 'flavour': flavour,
-                                                         'n0': n0, 'rns': list(rns), 'placement': [str(p) for p in placement]})
+                                                         'n0': n0, 'rns': list(rns), 'placement': [p if not isinstance(p, tuple) else 't%d' % p[1] for p in map(lambda q: q if isinstance(q, tuple) else str(q), placement)]})
     part.sample({'role': role, 'source': src, 'elements': k, 'link': flavour}, limit=2)
 
 
@@ -228,7 +239,7 @@ def replay(rec):
         p = Partial()
         transmission_case(w['flavour'], w['req'], w['n'], p)
         return bool(p.violations)
-    placement = tuple(p if p == 'Q' else int(p) for p in w['placement'])
+    placement = tuple(p if p == 'Q' else (('t', int(p[1:])) if str(p).startswith('t') else int(p)) for p in w['placement'])
     v, nsent, total, _ = run_case(w['role'], w['flavour'], w['src'], w['k'], w['n0'], tuple(w['rns']), placement)
     print('case', w, '-> sent', nsent, 'credit', total)
     for x in v:
